@@ -2926,6 +2926,22 @@ impl<'vm> ActiveThread<'vm> {
         }
     }
 }
+/// Removes the frames that a failed call left above `level` (the number of frames before the call) and
+/// returns the error to report for it
+pub(crate) fn reset_after_error(vm: &Thread, level: usize, mut err: Error) -> Error {
+    let mut context = vm.context();
+    let stack = StackFrame::<State>::current(&mut context.stack);
+    match reset_stack(stack, level) {
+        Ok(new_trace) => {
+            if let Error::Panic(_, ref mut trace) = err {
+                *trace = Some(new_trace);
+            }
+            err
+        }
+        Err(err) => err,
+    }
+}
+
 #[doc(hidden)]
 pub fn reset_stack(mut stack: StackFrame<State>, level: usize) -> Result<crate::stack::Stacktrace> {
     let trace = stack.stack().stacktrace(level);
